@@ -158,6 +158,9 @@ func observeAll(docs []docSpec, reads []readSpec, perm int64, res *fw.Result, do
 	for _, w := range ws {
 		for _, wa := range w.warns {
 			// a generated declaration that webrender rejects makes the case meaningless
+			if strings.HasSuffix(strings.TrimSpace(wa), ", no value") {
+				continue // the expected report for `p: var(--c04-undefined)` (invalid at computed-value time)
+			}
 			if strings.Contains(wa, "Ignored") || strings.Contains(wa, "Error") {
 				res.Verdict = fw.Inconclusive
 				res.Msg = "generated declaration rejected: " + wa + docsText()
